@@ -617,16 +617,18 @@ pub struct ExecOpts {
     pub readers_after_placement: bool,
     /// verify the checkpoint directory standalone when one is taken
     pub verify_checkpoint: bool,
+    /// reopen with a different (format-compatible) option set
+    pub reopen_mutate: bool,
 }
 
 impl Default for ExecOpts {
     fn default() -> Self {
-        ExecOpts { fresh_battery: true, versioned: false, vlog_invariant: false, readers_after_placement: true, verify_checkpoint: false }
+        ExecOpts { fresh_battery: true, versioned: false, vlog_invariant: false, readers_after_placement: true, verify_checkpoint: false, reopen_mutate: false }
     }
 }
 
-pub struct Exec<'a> {
-    pub cfg: &'a Cfg,
+pub struct Exec {
+    pub cfg: Cfg,
     pub dir: PathBuf,
     pub tree: Option<Tree>,
     pub model: Model,
@@ -657,14 +659,14 @@ fn vfmt(v: &Option<Vec<u8>>) -> String {
     }
 }
 
-impl<'a> Exec<'a> {
-    pub fn new(cfg: &'a Cfg, dir: &Path, keys: Vec<Vec<u8>>, opts: ExecOpts, seed: u64) -> Result<Self, Violation> {
+impl Exec {
+    pub fn new(cfg: &Cfg, dir: &Path, keys: Vec<Vec<u8>>, opts: ExecOpts, seed: u64) -> Result<Self, Violation> {
         let clock = Arc::new(ManualClock(AtomicU64::new(1000)));
         let tree = cfg
             .open_with_clock(dir, clock.clone())
             .map_err(|e| Violation { step: 0, class: "open".into(), what: format!("initial open failed: {e}") })?;
         Ok(Exec {
-            cfg,
+            cfg: cfg.clone(),
             dir: dir.to_path_buf(),
             tree: Some(tree),
             model: Model::new(),
@@ -932,9 +934,33 @@ impl<'a> Exec<'a> {
                 for _ in 0..4 {
                     tokio::task::yield_now().await;
                 }
+                if self.opts.reopen_mutate {
+                    // dimensions the on-disk format does not depend on
+                    self.cfg.cache = *self.rng.pick(&[0, 4096, 1 << 20]);
+                    self.cfg.max_memtable_size = self.cfg.max_memtable_size.max(*self.rng.pick(&[16 * 1024, 64 * 1024, 256 * 1024]));
+                    self.cfg.l0_max_files = self.rng.range(1, 4) as usize;
+                    self.cfg.flush_on_close = self.rng.chance(1, 2);
+                    self.stats.flags.insert("reopened_with_different_options".into());
+                }
                 match self.cfg.open_with_clock(&self.dir, self.clock.clone()) {
                     Ok(t) => self.tree = Some(t),
-                    Err(e) => viol!(self, "reopen", "reopen of a cleanly closed store failed: {e}"),
+                    Err(e) => viol!(self, "reopen", "reopen of a cleanly closed store failed: {e} (options {})", self.cfg.to_json()),
+                }
+                // a second open of the same directory must yield the same contents
+                if self.rng.chance(1, 3) {
+                    let t = self.tree.take().unwrap();
+                    if let Err(e) = t.close().await {
+                        viol!(self, "close", "close failed: {e}");
+                    }
+                    drop(t);
+                    for _ in 0..4 {
+                        tokio::task::yield_now().await;
+                    }
+                    match self.cfg.open_with_clock(&self.dir, self.clock.clone()) {
+                        Ok(t) => self.tree = Some(t),
+                        Err(e) => viol!(self, "reopen", "second reopen failed: {e}"),
+                    }
+                    self.stats.reopens += 1;
                 }
                 self.stats.reopens += 1;
                 let vis = self.tree().verif_visible_seq();
@@ -1601,16 +1627,43 @@ pub fn scratch_root() -> PathBuf {
 
 pub fn run_history(cfg: &Cfg, keys: &[Vec<u8>], steps: &[Step], opts: &ExecOpts, dir: &Path, seed: u64) -> (Stats, Option<Violation>) {
     let _ = std::fs::remove_dir_all(dir);
+    crate::panics::install();
     let rt = tokio::runtime::Builder::new_current_thread().enable_all().build().unwrap();
-    let out = rt.block_on(async {
-        let mut ex = match Exec::new(cfg, dir, keys.to_vec(), opts.clone(), seed) {
-            Ok(e) => e,
-            Err(v) => return (Stats::default(), Some(v)),
-        };
-        let r = ex.run(steps).await;
-        ex.finish().await;
-        (ex.stats.clone(), r.err())
-    });
+    let progress = std::sync::atomic::AtomicUsize::new(0);
+    let res = std::panic::catch_unwind(std::panic::AssertUnwindSafe(|| {
+        rt.block_on(async {
+            let mut ex = match Exec::new(cfg, dir, keys.to_vec(), opts.clone(), seed) {
+                Ok(e) => e,
+                Err(v) => return (Stats::default(), Some(v)),
+            };
+            let mut r = Ok(());
+            for (i, s) in steps.iter().enumerate() {
+                ex.step_no = i;
+                progress.store(i, Ordering::SeqCst);
+                r = ex.step(s).await;
+                if r.is_err() {
+                    break;
+                }
+                ex.stats.steps += 1;
+            }
+            ex.finish().await;
+            (ex.stats.clone(), r.err())
+        })
+    }));
+    let out = match res {
+        Ok(o) => o,
+        Err(_) => {
+            let msg = crate::panics::take_last();
+            (
+                Stats::default(),
+                Some(Violation {
+                    step: progress.load(Ordering::SeqCst),
+                    class: "panic".into(),
+                    what: format!("the store panicked: {}", msg),
+                }),
+            )
+        }
+    };
     drop(rt);
     let _ = std::fs::remove_dir_all(dir);
     // checkpoint side directories
